@@ -103,12 +103,33 @@ impl<'a> G<'a> {
                 s.push_str(*self.r.pick(PIECES));
             }
         }
-        // the body must not contain an unescaped `"""` nor end with a quote or a backslash-quote run
-        let mut body = s.replace("\"\"\"", "\"\" \"");
+        // the body must not contain an unescaped `"""`, nor end with a quote or a backslash
+        let mut body = String::new();
+        let mut quotes = 0usize; // length of the current run of quotes
+        let mut escaped_run = false; // the run started right after a backslash (`\"""`)
+        let mut prev_backslash = false;
+        for c in s.chars() {
+            if c == '"' {
+                if quotes == 0 {
+                    escaped_run = prev_backslash;
+                }
+                let limit = if escaped_run { 3 } else { 2 };
+                if quotes >= limit {
+                    body.push(' ');
+                    quotes = 0;
+                    escaped_run = false;
+                }
+                body.push('"');
+                quotes += 1;
+            } else {
+                quotes = 0;
+                body.push(c);
+            }
+            prev_backslash = c == '\\';
+        }
         while body.ends_with('"') || body.ends_with('\\') {
             body.push(' ');
         }
-        let body = body.replace("\\\"\" \"", "\\\"\"\"");
         format!("\"\"\"{}\"\"\"", body)
     }
 
